@@ -19,7 +19,8 @@ RULE = ("two invocations on one client (or a client and its clone) under a contr
         ' ; a port mixing a document/literal and an rpc/literal operation, both in flight'
         ' ; header entries added by a marshalled plugin stay with their own request (sequential, two in flight, clone)'
         ' ; encoded string arrays next to string replies (one generated class name, two kinds of object)'
-        ' ; an endpoint set on a clone stays with the clone')
+        ' ; an endpoint set on a clone stays with the clone'
+        ' ; multi-part replies in flight')
 ASSUMPTIONS = ["preemption points are Python trace events (function call/return, line); switches inside C code "
                "(expat callbacks aside) are not exercised",
                "the scheduler serialises the threads itself, so GIL switch timing is not what is being sampled"]
